@@ -8,6 +8,8 @@ use crate::sys::*;
 use crate::world::*;
 use axelar_soroban_std::types::Token;
 use proptest::prelude::*;
+#[allow(unused_imports)]
+use crate::prop_oneof;
 use serde::{Deserialize, Serialize};
 use soroban_sdk::{Address, BytesN};
 
